@@ -7,6 +7,7 @@ CONSTANTS
   ReadEdits = TRUE
   FirstWriteKeeps = FALSE
   HookEditsOld = FALSE
+  LendsOld = FALSE
   InitKinds = {"absent", "present"}
   NCases = 0
   MinOps = 1
